@@ -346,6 +346,7 @@ class Scheduler(object):
         self.churn_seen = {}
         self.guide_phase = 'init'
         self.guide = {}
+        self.fc_seen = {}
 
     # hooks for property-specific schedulers --------------------------------------
     def extra_choices(self, items):
@@ -418,6 +419,27 @@ class Scheduler(object):
                         return [0.0, 'child', h.idx]
         if self.queue:
             return self.queue.pop(0)
+        prc = s.get('p_rst_after_follower_commit', 0)
+        if prc and self.drain == 0:
+            # adversary: a follower has just moved its commit index on; the connection to its leader is reset now, so that
+            # the leader starts again from an older next index and re-sends batches that end below that commit index
+            seen = self.fc_seen
+            for h in w.hosts:
+                nd = h.node
+                if nd is None or h.readonly:
+                    seen.pop(h.idx, None)
+                    continue
+                c = nd.raftCommitIndex
+                old = seen.get(h.idx)
+                seen[h.idx] = c
+                if old is not None and c > old and priv(nd, 'SyncObj', 'raftState') == 0 and rng.random() < prc:
+                    lead = self.leader_idx()
+                    if lead is None or lead == h.idx:
+                        continue
+                    for cid, cn in net.conns.items():
+                        if set((cn.chost, cn.shost)) == set((lead, h.idx)):
+                            w.probe('reset_after_follower_commit')
+                            return [dt, 'rst', cid, rng.randrange(2)]
         ss = getattr(w, 'snap_sent', None)
         if ss is not None and s['w_compact'] > 0 and self.drain == 0:
             # adversary: a leader has just handed (a chunk of) a snapshot for node i to its transport; with some
